@@ -313,47 +313,49 @@ Next ==
 Spec == Init /\ [][Next]_vars
 
 \* ================================================================ properties
+\* action properties speak about real transactions only (a step that leaves every variable unchanged is stuttering)
+Real == vars' # vars
 \* ---- ExclusiveSet / database path
 \* since the key last held a falsy value at most one ExclusiveSet on it has succeeded
 ExclusiveSetAtMostOnce == \A k \in AllKeys : Cardinality(owners[k]) <= 1
 ExclusiveSetNeverOverwrites ==
-  [][last'.tx = "xset" =>
+  [][Real => (last'.tx = "xset" =>
        IF Truthy(store[last'.key]) THEN store' = store /\ last'.res = Err("KeyError")
-       ELSE store' = [store EXCEPT ![last'.key] = last'.arg.v] /\ last'.res = Val(last'.arg.v)]_vars
+       ELSE store' = [store EXCEPT ![last'.key] = last'.arg.v] /\ last'.res = Val(last'.arg.v))]_vars
 \* setDBPath succeeds exactly when no path is set, otherwise raises DBConnectionError and changes nothing
 SetDBPathExactlyOnce ==
-  [][last'.op = "setDBPath" =>
+  [][Real => (last'.op = "setDBPath" =>
        /\ (last'.opres = "ok") = ~Truthy(store[DbKey])
        /\ (last'.opres = "ok" => store'[DbKey] = last'.arg.v)
-       /\ (last'.opres # "ok" => last'.opres = "DBConnectionError" /\ store' = store)]_vars
+       /\ (last'.opres # "ok" => last'.opres = "DBConnectionError" /\ store' = store))]_vars
 \* an established path is never changed by setDBPath / getDBConnection (only clearDBPath, flush, raw writes)
 DbPathStable ==
-  [][Truthy(store[DbKey]) /\ last'.op \in {"setDBPath", "getDBConnection"} => store'[DbKey] = store[DbKey]]_vars
+  [][Real => (Truthy(store[DbKey]) /\ last'.op \in {"setDBPath", "getDBConnection"} => store'[DbKey] = store[DbKey])]_vars
 \* getDBConnection hands out the path that is set, and fails exactly when none is ("is None")
 GetConnReflectsPath ==
-  [][last'.op = "getDBConnection" =>
-       IF IsNone(store[DbKey]) THEN last'.opres = "DBConnectionError" ELSE last'.res = Val(store[DbKey])]_vars
+  [][Real => (last'.op = "getDBConnection" =>
+       IF IsNone(store[DbKey]) THEN last'.opres = "DBConnectionError" ELSE last'.res = Val(store[DbKey]))]_vars
 \* clearDBPath leaves the key holding None, hence (SetDBPathExactlyOnce) setDBPath works again
-ClearDBPathUnsets == [][last'.op = "clearDBPath" => store'[DbKey] = NoneV /\ last'.opres = "ok"]_vars
+ClearDBPathUnsets == [][Real => (last'.op = "clearDBPath" => store'[DbKey] = NoneV /\ last'.opres = "ok")]_vars
 
 \* ---- get / set
 WrittenConsistent == \A k \in AllKeys : written[k] # Unknown => store[k] = written[k]
 GetReturnsLastSet ==
-  [][last'.tx = "get" /\ written[last'.key] # Unknown =>
-       last'.res = Val(GetView(written[last'.key])) /\ store' = store]_vars
-FlushEmpties == [][last'.tx = "flush" => \A k \in AllKeys : store'[k] = Absent]_vars
+  [][Real => (last'.tx = "get" /\ written[last'.key] # Unknown =>
+       last'.res = Val(GetView(written[last'.key])) /\ store' = store)]_vars
+FlushEmpties == [][Real => (last'.tx = "flush" => \A k \in AllKeys : store'[k] = Absent)]_vars
 
 \* ---- sequences
 PopRemovesWhatItReturns ==
-  [][PopHit(last'.tx, last'.key, last'.arg, [r |-> last'.res]) =>
+  [][Real => (PopHit(last'.tx, last'.key, last'.arg, [r |-> last'.res]) =>
        LET k == last'.key  p == PopPos(store[k].l, last'.arg.i) IN
        /\ last'.res.v.a = store[k].l[p]
-       /\ store'[k] = ListV(RemoveAt(store[k].l, p))]_vars
+       /\ store'[k] = ListV(RemoveAt(store[k].l, p)))]_vars
 AppendKeepsOrder ==
-  [][last'.tx = "append" /\ IsOk(last'.res) =>
+  [][Real => (last'.tx = "append" /\ IsOk(last'.res) =>
        LET k == last'.key IN
        /\ store'[k].t = "list" /\ last'.res = Val(store'[k])
-       /\ store'[k].l = (IF Truthy(store[k]) THEN store[k].l ELSE <<>>) \o <<last'.arg.v.a>>]_vars
+       /\ store'[k].l = (IF Truthy(store[k]) THEN store[k].l ELSE <<>>) \o <<last'.arg.v.a>>)]_vars
 
 \* ---- event stack
 Disjoint(A, B) == A \cap B = {}
@@ -369,7 +371,7 @@ NoEventLost == lost = {}
 FlusherFIFO == \A c \in Clients : \A i, j \in DOMAIN got[c] : i < j => got[c][i] < got[c][j]
 \* at the instant logAndFlushEvents returns normally the stack is empty
 FlushLeavesStackEmpty ==
-  [][last'.op = "logAndFlush" /\ last'.done /\ last'.opres = "ok" => ~Truthy(store'[EvKey])]_vars
+  [][Real => (last'.op = "logAndFlush" /\ last'.done /\ last'.opres = "ok" => ~Truthy(store'[EvKey]))]_vars
 
 \* ---- caches
 CacheBounded ==
@@ -378,22 +380,22 @@ CacheBounded ==
      /\ Cardinality(RecNames(store[k].l)) = Len(store[k].l)
 \* a record just stored or served is the most recently used one
 CacheMRU ==
-  [][last'.tx \in {"put", "grab"} /\ IsOk(last'.res) /\ store'[last'.key].m >= 1 =>
-       LET l == store'[last'.key].l IN l # <<>> /\ l[Len(l)][1] = last'.arg.r]_vars
+  [][Real => (last'.tx \in {"put", "grab"} /\ IsOk(last'.res) /\ store'[last'.key].m >= 1 =>
+       LET l == store'[last'.key].l IN l # <<>> /\ l[Len(l)][1] = last'.arg.r)]_vars
 \* a put purges at most one other record, and only the least recently used one
 CacheEvictsOnlyLRU ==
-  [][last'.tx = "put" /\ IsOk(last'.res) =>
+  [][Real => (last'.tx = "put" /\ IsOk(last'.res) =>
        LET old == store[last'.key].l  new == store'[last'.key].l
            gone == (RecNames(old) \ RecNames(new)) \ {last'.arg.r}
        IN /\ Cardinality(gone) <= 1
           /\ \A r \in gone : r = Without(old, last'.arg.r)[1][1] /\ Len(Without(old, last'.arg.r)) >= store[last'.key].m
-          /\ \A e \in Range(old) : (e[1] # last'.arg.r /\ e[1] \notin gone) => e \in Range(new)]_vars
+          /\ \A e \in Range(old) : (e[1] # last'.arg.r /\ e[1] \notin gone) => e \in Range(new))]_vars
 \* a grab serves exactly what the cache holds for that record; a purged / never stored record is a miss
 CacheNeverServesPurged ==
-  [][last'.tx = "grab" /\ store[last'.key].t = "cache" =>
+  [][Real => (last'.tx = "grab" /\ store[last'.key].t = "cache" =>
        IF last'.arg.r \in RecNames(store[last'.key].l)
          THEN last'.res = Val(AtomV(Entry(store[last'.key].l, last'.arg.r)[2]))
-         ELSE last'.res = Err("CacheMissError") /\ store' = store]_vars
+         ELSE last'.res = Err("CacheMissError") /\ store' = store)]_vars
 
 \* ---- reduction parameter caches
 \* whatever is cached under a date / minute is the value computed for that date / minute
@@ -407,7 +409,7 @@ ReductionPutsSurvive ==
      \A b \in built : store[b[1]].t = "cache" /\ b[2] \in RecNames(store[b[1]].l)
 \* without a store-level flush concurrent builds never fail
 ReductionRaceBenign ==
-  [][last'.op = "reduction" /\ last'.done /\ ~On("flush") => last'.opres = "ok"]_vars
+  [][Real => (last'.op = "reduction" /\ last'.done /\ ~On("flush") => last'.opres = "ok")]_vars
 
 TypeOK ==
   /\ \A k \in AllKeys : store[k].t \in {"absent", "none", "atom", "list", "cache"}
